@@ -230,7 +230,7 @@ def _worker(ys):
                     variants = [(other, FORMATS, tag)]
                     if tag == "DT_YMCW" and isinstance(r0, dict) and r0.get("w") == 7:
                         # Sunday may be spelt 0 in this representation (the parser hands `2012-09-02-00` on like that): the names are Sunday's
-                        variants.append((dict(other, **{mem + ".w": 0}), [f_ for f_ in FORMATS if any(i_ in ("%a", "%A") for i_ in f_[0]) and "%w" not in f_[0]],
+                        variants.append((dict(other, **{mem + ".w": 0}), [f_ for f_ in FORMATS if any(i_ in ("%a", "%A", "%db") for i_ in f_[0]) and "%w" not in f_[0]],
                                          "DT_YMCW with Sunday spelt 0"))
                     for other, fmts, tag in variants:
                       for items, back in fmts:
